@@ -9,9 +9,10 @@ from .c01 import check_event
 
 ID = 'C02'
 RULE = ('cases: histories of 1..4 version-2 dumps parsed in sequence through the SAME threads_pids/pids_names dict '
-        'objects (KdBufParser.parse, PyKdebugParser.kevents, a default-constructed KdBufParser(), or alternating). Each dump = header (random filler '
+        'objects (KdBufParser.parse on a new or on ONE reused KdBufParser object, PyKdebugParser.kevents, a default-constructed KdBufParser(), or alternating; '
+        'some files are read twice or share their thread map with the previous one, and the tables may be edited between two parses). Each dump = header (random filler '
         'in its unused fields) + thread map of 0..40 entries (full-range tids/pids, pooled duplicates, utf-8 names '
-        '<= 19 bytes, optional garbage after the NUL) + zero padding {0,1..7,8..4096} + 0..60 records '
+        '<= 19 bytes, optional garbage after the NUL) + zero padding {0,1..7,8..4096, 4097..70000 (16 KiB and 64 KiB pages)} + 0..60 records '
         '(random/structured bytes; records beginning with 1..63 zero bytes and all-zero records forced in); sub-check big: dumps of '
         '255..4097 records (around the block sizes of a buffered reader: 256, 512, 1024, 2048, 4096); sub-check cli_file: a dump of 20000+ records '
         '(more than 1 MiB) read from a real file by the `kevents` command. '
@@ -29,6 +30,11 @@ def parse_one(api, parser_objs, blob):
     if api == 'kdbuf':
         p = KdBufParser(tp, pn)
         items = list(p.parse(BudgetReader(blob)))
+    elif api == 'kdbuf-same':
+        # ONE KdBufParser object for all the files of the history (the files of a split capture read one after the other)
+        if 'same' not in pk.__dict__.setdefault('_vf_scratch', {}):
+            pk._vf_scratch['same'] = KdBufParser(tp, pn)
+        items = list(pk._vf_scratch['same'].parse(BudgetReader(blob)))
     elif api == 'kdbuf-own':
         # a parser constructed without tables owns fresh ones: they must hold this file's map and nothing else
         p = KdBufParser()
@@ -54,6 +60,13 @@ def prop_history(ctx, case):
         pk.pids_names[4242] = 'stale'
     classes = []
     for depth, (api, spec) in enumerate(zip(case['apis'], case['files'])):
+        if depth and case.get('between'):
+            # between two parses the owner of the tables learns something from elsewhere (a new-thread record decoded by
+            # the trace layer, a log record): the next parse still leaves exactly its file's map
+            objs[0][0xfeed0000 + depth] = 31337
+            objs[1][31337] = 'learned_between_parses'
+            for k in list(objs[0])[:1]:
+                objs[0][k] = 424242
         blob = files.build_v2(spec)
         recs = spec['recs']
         known_class = bool(recs) and recs[0][0] == 0
@@ -130,11 +143,23 @@ PROPS = {'history': prop_history, 'big': prop_big, 'cli_file': prop_cli_file}
 
 def strategy():
     n = st.integers(1, 4)
+
+    def repeat(c):
+        # some histories read the same file (or a file with the same thread map) again
+        fs = list(c['files'])
+        for i in range(1, len(fs)):
+            r = (c['repeat'] >> (2 * i)) & 3
+            if r == 1:
+                fs[i] = fs[i - 1]
+            elif r == 2:
+                fs[i] = dict(fs[i], tm=fs[i - 1]['tm'])
+        return dict(c, files=fs)
     return n.flatmap(lambda k: st.fixed_dictionaries({
-        'apis': st.lists(st.sampled_from(['kdbuf', 'pykdebug', 'kdbuf', 'pykdebug', 'kdbuf-own']), min_size=k, max_size=k),
+        'apis': st.one_of(st.lists(st.sampled_from(['kdbuf', 'pykdebug', 'kdbuf', 'pykdebug', 'kdbuf-own', 'kdbuf-same']), min_size=k, max_size=k),
+                          st.just(['kdbuf-same'] * k)),
         'files': st.lists(files.v2_spec(), min_size=k, max_size=k),
-        'stale': st.booleans(), 'overlap': st.booleans(),
-    }))
+        'stale': st.booleans(), 'overlap': st.booleans(), 'between': st.booleans(), 'repeat': st.integers(0, 255),
+    })).map(repeat)
 
 
 def run(ctx):
